@@ -4,7 +4,7 @@
    input is a list of complete lines ([llen l] bytes each, '\n' included) plus [tail] bytes
    without '\n'; the reader follows ANY schedule [sch] of read sizes. *)
 From Coq Require Import ZArith List Bool.
-From RM Require Import Base.Word C09.Model C09.Grammar C09.Driver C09.Proofs C09.ProofsBytes.
+From RM Require Import Base.Word C08.Model C11.Model C09.Model C09.Grammar C09.Driver C09.Proofs C09.ProofsBytes.
 Import ListNotations.
 Open Scope Z_scope.
 
@@ -83,10 +83,41 @@ Theorem c09_long_line_dropped :
 Proof. exact drive_shape. Qed.
 Print Assumptions c09_long_line_dropped.
 
-(* non-vacuity: a 200000-byte line between valid records is dropped, the parse succeeds and
-   the records after it are seen (1 FILE id); the buffer ends at 160 KiB *)
 Definition ex_module : rle := map (fun b => (b, 1)) [77;79;68;85;76;69;32;97;32;98;32;99;32;100].   (* MODULE a b c d *)
 Definition ex_file : rle := map (fun b => (b, 1)) [70;73;76;69;32;49;32;120].                       (* FILE 1 x *)
+(* The symbol table.  [recog_pst] (C09/Grammar.v) returns the parsed records and [finish] builds the
+   canonical table (finish_item + SymbolParser::finish: C08's range-map builder, the sorts, the
+   zero-size filters, insert_win_stack_info).  If no complete line is longer than 80 KiB, an Ok
+   result under any schedule is the fold of the recogniser over all lines, and its table is
+   [finish] of that fold. *)
+Theorem c09_table_spec :
+  forall (lines : list rle) (tail : Z) (sch : list Z) p s,
+    Forall (fun l => cllen l <= HALF_CAP) lines ->
+    drive_c lines tail sch = Ret (ROk p, s) ->
+    fold_recog rle pst recog_pst lineno_pst init_pst lines = inl p /\
+    table_of (ROk p) =
+    match fold_recog rle pst recog_pst lineno_pst init_pst lines with
+    | inl q => obind (finish q) (fun t => Ret (Some t))
+    | inr _ => Ret None
+    end.
+Proof. exact table_spec. Qed.
+Print Assumptions c09_table_spec.
+
+(* non-vacuity: a file with overlapping FUNCs, zero-size lines and inlinees, a CFI group: the table *)
+Example c09_nonvacuous_table :
+  let o := run_case [ex_module;
+                     map (fun b => (b, 1)) [70;85;78;67;32;49;48;32;56;32;48;32;102];      (* FUNC 10 8 0 f *)
+                     map (fun b => (b, 1)) [49;48;32;52;32;55;32;49];                        (* 10 4 7 1 *)
+                     map (fun b => (b, 1)) [49;52;32;48;32;56;32;49];                        (* 14 0 8 1 *)
+                     map (fun b => (b, 1)) [70;85;78;67;32;49;52;32;56;32;48;32;103];      (* FUNC 14 8 0 g *)
+                     ex_file] 0 [3; 5] in
+  (o_kind o, o_files o, o_funcs o,
+   match o_table o with Some t => map (fun e => (fst e, zlen (sf_lines (snd e)))) (t_funcs t) | None => [] end)
+  = (0, 1, 1, [((16, 23), 1)]).
+Proof. vm_compute. reflexivity. Qed.
+
+(* non-vacuity: a 200000-byte line between valid records is dropped, the parse succeeds and
+   the records after it are seen (1 FILE id); the buffer ends at 160 KiB *)
 Example c09_nonvacuous_drop :
   let o := run_case [ex_module; [(97, 200000)]; ex_file] 0 [] in
   (o_kind o, o_dropped o, o_files o, o_cap o, o_cb o) = (0, 1, 1, 163840, 200025).
